@@ -24,13 +24,13 @@ import (
 )
 
 const (
-	tTrue, tFalse, tByte          = 1, 2, 3
-	tInt16, tInt32, tInt64        = 10, 11, 12
-	tUint16, tUint32, tUint64     = 20, 21, 22
-	tBin64, tBin128, tBin256      = 30, 31, 32
-	tFloat32, tFloat64            = 40, 41
-	tBytes, tString               = 50, 60
-	tList, tBigList               = 70, 71
+	tTrue, tFalse, tByte           = 1, 2, 3
+	tInt16, tInt32, tInt64         = 10, 11, 12
+	tUint16, tUint32, tUint64      = 20, 21, 22
+	tBin64, tBin128, tBin256       = 30, 31, 32
+	tFloat32, tFloat64             = 40, 41
+	tBytes, tString                = 50, 60
+	tList, tBigList                = 70, 71
 	tMessage, tBigMessage, tStruct = 80, 81, 90
 )
 
